@@ -225,6 +225,52 @@ func (db *Database) DeleteControllerInput(controllerName string, dep controller.
 	return nil
 }
 
+// DeleteController removes all outputs and inputs registered for the controller.
+//
+// It is used to roll back a controller registration which was rejected half-way.
+func (db *Database) DeleteController(controllerName string) {
+	db.mu.Lock()
+	defer db.mu.Unlock()
+
+	for resourceType, exclusiveController := range db.exclusiveOutputs {
+		if exclusiveController == controllerName {
+			delete(db.exclusiveOutputs, resourceType)
+		}
+	}
+
+	for resourceType, sharedControllers := range db.sharedOutputs {
+		idx, found := slices.BinarySearch(sharedControllers, controllerName)
+		if !found {
+			continue
+		}
+
+		if len(sharedControllers) == 1 {
+			delete(db.sharedOutputs, resourceType)
+		} else {
+			db.sharedOutputs[resourceType] = slices.Delete(sharedControllers, idx, idx+1)
+		}
+	}
+
+	isController := func(s string) bool { return s == controllerName }
+
+	for _, dep := range db.controllerInputs[controllerName] {
+		key := namespaceType{
+			Namespace: dep.Namespace,
+			Type:      dep.Type,
+		}
+
+		if id, ok := dep.ID.Get(); !ok {
+			db.inputLookup[key] = slices.DeleteFunc(db.inputLookup[key], isController)
+		} else {
+			keyID := namespaceTypeID{namespaceType: key, ID: id}
+
+			db.inputLookupID[keyID] = slices.DeleteFunc(db.inputLookupID[keyID], isController)
+		}
+	}
+
+	delete(db.controllerInputs, controllerName)
+}
+
 // GetControllerInputs returns a list of controller dependencies.
 func (db *Database) GetControllerInputs(controllerName string) ([]controller.Input, error) {
 	db.mu.Lock()
